@@ -41,6 +41,22 @@ pub(crate) mod axync {
     pub(crate) use async_channel::{bounded, unbounded, Receiver, RecvError, Sender};
     pub(crate) use futures::select;
     pub(crate) type WaitGroup = wg::AsyncWaitGroup;
+
+    /// The token carried by a `Wait` item. It releases the waiter when it is dropped, so a
+    /// marker that is destroyed without being handled cannot leave `wait()` blocked forever.
+    pub(crate) struct WaitSignal(pub(crate) WaitGroup);
+
+    impl WaitSignal {
+        pub(crate) fn done(&self) -> usize {
+            self.0.done()
+        }
+    }
+
+    impl Drop for WaitSignal {
+        fn drop(&mut self) {
+            self.0.done();
+        }
+    }
     pub(crate) fn stop_channel() -> (Sender<()>, Receiver<()>) {
         bounded(1)
     }
@@ -59,6 +75,22 @@ pub(crate) mod sync {
     pub(crate) type UnboundedSender<T> = Sender<T>;
     pub(crate) type UnboundedReceiver<T> = Receiver<T>;
     pub(crate) type WaitGroup = wg::WaitGroup;
+
+    /// The token carried by a `Wait` item. It releases the waiter when it is dropped, so a
+    /// marker that is destroyed without being handled cannot leave `wait()` blocked forever.
+    pub(crate) struct WaitSignal(pub(crate) WaitGroup);
+
+    impl WaitSignal {
+        pub(crate) fn done(&self) -> usize {
+            self.0.done()
+        }
+    }
+
+    impl Drop for WaitSignal {
+        fn drop(&mut self) {
+            self.0.done();
+        }
+    }
 
     pub(crate) fn stop_channel() -> (Sender<()>, Receiver<()>) {
         bounded(0)
